@@ -53,15 +53,24 @@ def scell(s, classes=DELIMS):
     if c1 is not None:
         if len(s) < 2 or cls_of(s[1], classes) != c1:
             return False
+    c2 = env_int("VP_C2")
+    if c2 is not None:
+        if len(s) < 3 or cls_of(s[2], classes) != c2:
+            return False
     return True
 
 
-def str_cells(n, split1_from=None, split2_from=None, nclass=len(DELIMS) + 1, minlen=0):
+def str_cells(n, split1_from=None, split2_from=None, nclass=len(DELIMS) + 1, minlen=0, split3_from=None):
     """Disjoint cover of {s : minlen <= len(s) <= n}: one cell per length; lengths >= split1_from are
-    split by the class of s[0]; lengths >= split2_from also by the class of s[1]."""
+    split by the class of s[0]; lengths >= split2_from also by the class of s[1]; >= split3_from also s[2]."""
     cells = []
     for L in range(minlen, n + 1):
-        if split2_from is not None and L >= max(split2_from, 2):
+        if split3_from is not None and L >= max(split3_from, 3):
+            for a in range(nclass):
+                for b in range(nclass):
+                    for c in range(nclass):
+                        cells.append({"VP_LEN": L, "VP_C0": a, "VP_C1": b, "VP_C2": c})
+        elif split2_from is not None and L >= max(split2_from, 2):
             for a in range(nclass):
                 for b in range(nclass):
                     cells.append({"VP_LEN": L, "VP_C0": a, "VP_C1": b})
